@@ -1,21 +1,36 @@
 // Package c02: honest validators vote only for fully valid blocks; committed blocks apply.
 //
 // Model: spec/BlockValidity/BlockValidity.tla - the validity layer of the consensus state
-// machine (what defaultDoPrevote / enterPrecommit check before voting, finalizeCommit
-// split into CommitBlock . ApplyBlock . Kill, restart), one Byzantine proposer and three
-// correct validators; the guard is a constant (AsCoded / AsRequired). TLC decides
-// VotesOnlyFullyValid, PersistOnlyApplicable, NoWedge and ChainContinues exhaustively for
-// every block class of up to three violated clauses and exports every transition.
+// machine (what defaultDoPrevote / enterPrecommit check before voting, how enterPrecommit /
+// enterCommit / finalizeCommit match the block they hold with the block that was voted,
+// finalizeCommit split into CommitBlock . ApplyBlock . Kill, restart) for one Byzantine
+// validator (< 1/3 of the power) and the correct validators of a validator set chosen by
+// the first action; "more than two thirds" is the exact comparison 3p > 2T for vote sets
+// and for the previous commit a block carries alike; the guard and the block comparison
+// are constants (AsCoded / AsRequired, hash / id). TLC decides VotesOnlyFullyValid,
+// PersistOnlyApplicable, NoWedge and ChainContinues exhaustively, and exports every
+// transition, for
+//   - every block class of up to three violated clauses on four equal validators and
+//     previous commits exactly on the two-thirds boundary (floor(2T/3), floor(2T/3)+1) for
+//     validator sets in every residue class of the total power mod 3 (AsRequired*.cfg),
+//   - two blocks of the Byzantine proposer, built in one round or in rounds 0 and 4 with
+//     the correct proposers' rounds in between, the second one unrelated to the first or
+//     its twin - the same header with another body (Two*.cfg).
 //
-// Binding: every exported behaviour class is replayed on a 4-validator cluster of real
-// consensus.ConsensusState instances on real LinkApplication instances (package world.go);
-// the abstract block classes are instantiated by a catalogue of concrete corruptions of an
-// honestly built block (corrupt.go); after every step the votes, the persisted block, the
-// applied flag, kill requests and failures of all three correct nodes are compared with
-// the model's state (scenario.go).
+// Binding: (a) every exported behaviour class of the one-block instances is replayed on a
+// cluster of real consensus.ConsensusState instances on real LinkApplication instances
+// (world.go): the abstract block classes are instantiated by a catalogue of concrete
+// corruptions of an honestly built block (corrupt.go); the driver takes the steps the real
+// nodes are ready for and looks each one up in the graph (scenario.go). (b) The graphs of
+// the two-block instances drive the replay themselves: maximal paths - one through every
+// "situation" in which the code decides about a Byzantine block, then paths chosen by the
+// share of the graph below them - are executed action by action (paths.go). After every
+// step the votes, the persisted block, the applied flag, kill requests and failures of all
+// correct nodes are compared with the model's state.
 package c02
 
 import (
+	"bytes"
 	"encoding/json"
 	"fmt"
 	"io"
@@ -26,7 +41,9 @@ import (
 	"sort"
 	"strings"
 	"sync"
+	"verifh/evidx"
 
+	cs "github.com/lianxiangcloud/linkchain/consensus"
 	"github.com/lianxiangcloud/linkchain/libs/ser"
 	"github.com/lianxiangcloud/linkchain/types"
 
@@ -42,10 +59,21 @@ func serDecodeReader(ps *types.PartSet, out interface{}, max int64) (int64, erro
 	return ser.DecodeReader(r, out, max)
 }
 
+func serEncode(b *types.Block) ([]byte, error) { return ser.EncodeToBytes(b) }
+
+func decodeBlock(bz []byte, st cs.NewStatus) (*types.Block, error) {
+	var b *types.Block
+	if _, err := ser.DecodeReader(bytes.NewReader(bz), &b, int64(st.ConsensusParams.BlockSize.MaxBytes)); err != nil {
+		return nil, err
+	}
+	return b, nil
+}
+
 type job struct {
 	Edges     string     `json:"edges"`
 	Coded     string     `json:"coded"` // edges of the AsCoded graph (pi_shape conformance of the tree as it is)
 	Scenarios []scenario `json:"scenarios"`
+	Paths     string     `json:"paths"` // file with the behaviours of the two-block instances of this job ([]pathSpec)
 	Dir       string     `json:"dir"`
 }
 
@@ -75,6 +103,22 @@ func child(c *core.Ctx) {
 		}
 		return newGraphIndex(g)
 	}
+	if j.Paths != "" {
+		var specs []pathSpec
+		b, err := ioutil.ReadFile(j.Paths)
+		if err != nil || json.Unmarshal(b, &specs) != nil {
+			fmt.Fprintln(os.Stderr, "bad path file:", err)
+			os.Exit(3)
+		}
+		for k, ps := range specs {
+			fmt.Printf("AT %s\n", ps.String())
+			out := playPath(ps, kw, filepath.Join(j.Dir, fmt.Sprintf("w%d", k)))
+			b, _ := json.Marshal(out)
+			fmt.Printf("RESULT %s\n", b)
+		}
+		fmt.Println("DONE")
+		return
+	}
 	gi, coded := load(j.Edges), load(j.Coded)
 	for k, sc := range j.Scenarios {
 		fmt.Printf("AT %s\n", sc.String())
@@ -86,11 +130,20 @@ func child(c *core.Ctx) {
 }
 
 func newGraphIndex(g *mbt.Graph) *graphIndex {
-	gi := &graphIndex{g: g, classes: map[string]bool{}}
+	gi := &graphIndex{g: g, setups: map[string]int{}, firsts: map[string]map[string]bool{}}
 	for _, ei := range g.Out[0] {
-		var a modelAct
-		json.Unmarshal(g.Edges[ei].Act, &a)
-		gi.classes[className(a.Cls)] = true
+		a := gi.act(ei)
+		if a == nil || a.Op != "genesis" {
+			continue
+		}
+		st := g.Edges[ei].To
+		gi.setups[a.Setup] = st
+		gi.firsts[a.Setup] = map[string]bool{}
+		for _, ej := range g.Out[st] {
+			if b := gi.act(ej); b != nil && b.Op == "byzPropose" {
+				gi.firsts[a.Setup][firstKey(className(b.Cls), b.Lcp)] = true
+			}
+		}
 	}
 	return gi
 }
@@ -133,12 +186,16 @@ func run(cc *core.Ctx) {
 		return
 	}
 	o := c.Out()
+	// the last step of ApplyBlock on every node: the evidence pool takes the committed block's evidence
+	// (spec/Evidence, bound by harness/evidx) - a valid block must never kill the node that applies it
+	defer evidx.Run(cc)
 	o.Level = "model_checking"
-	o.Rule = "behaviour = one path of the TLC-exported graph of BlockValidity (guard AsRequired; block class x who receives the Byzantine proposal in time x the synchronous rounds that follow) replayed on a fresh 4-validator cluster of real ConsensusState + real LinkApplication instances with one concrete corruption (or two joint ones) of an honestly built block instantiating the class; every model step is compared on all three correct nodes; non-trivial = the block is not the untouched control; distinct = distinct (corruption(s), height, choices, node permutation, storage mode)"
+	o.Rule = "behaviour = one path of a TLC-exported graph of BlockValidity (guard AsRequired, blocks compared by BlockID) replayed on a fresh cluster of real ConsensusState + real LinkApplication instances; one-block instances: validator set x block class x commit power x who receives the Byzantine proposal in time x the synchronous rounds that follow, the class instantiated by one concrete corruption (or two joint ones) of an honestly built block; two-block instances: a maximal path of the graph (who is shown which of the two blocks in which round, the Byzantine votes, lost proposals of correct proposers), the classes and the twin body instantiated from the catalogue; every model step is compared on all correct nodes; non-trivial = some Byzantine block is not fully valid; distinct = distinct (corruption(s), height, choices, validator set, node permutation, storage mode) resp. distinct (path, constructions)"
 	o.Assumptions = []string{
-		"one Byzantine validator (the round-0 proposer of the target height) out of four of equal power; it holds only its own key and supports its block with its prevote and precommit in every round",
-		"inside a phase the driver serves the correct nodes in a fixed order and every vote is exchanged (synchronous rounds); who receives the Byzantine proposal before the propose timeout is free; TLC checks the same invariants for any order (AsRequiredFree, thorough tier)",
-		"rounds 0 (Byzantine proposer) and 1 (correct proposer) of heights 1-3; validator set and parameters do not change (the harness-built chain has no candidate contracts)",
+		"one Byzantine validator (the round-0 proposer of the target height) holding less than a third of the power: one of four equal validators, of five to eight equal validators, or of four / five validators of unequal power; it holds only its own key; one-block instances: it supports its block with its prevote and precommit in every round; two-block instances: in the rounds it proposes it prevotes nil or one of its blocks and precommits nil or what it prevoted (the same vote to everybody), in the other rounds it votes nil",
+		"inside a phase the driver serves the correct nodes in a fixed order (the round's proposer first) and every vote is exchanged (synchronous rounds); who receives which Byzantine proposal before the propose timeout is free (more than three correct validators: a prefix of them); a proposal of a correct proposer reaches everybody or nobody; TLC checks the same invariants for any order (AsRequiredFree, thorough tier)",
+		"one-block instances: rounds 0 (Byzantine proposer) and 1 (correct proposer) of heights 1-3 (validator sets other than four equal ones: the first height >= 2 whose round-0 proposer holds less than a third); two-block instances: rounds 0-4 of height 2 on four equal validators (the Byzantine validator proposes rounds 0 and 4); validator set and parameters do not change (the harness-built chain has no candidate contracts)",
+		"the previous commit's power is placed on the boundary with the powers as they are (no scaling): the largest power a set of precommits can carry that is not more than two thirds of T and the smallest that is (floor(2T/3) and floor(2T/3)+1 where the powers allow it)",
 		"blocks carry plain transfers; application-level execution of the honest block stays valid",
 		"restart of a killed node = LoadStatus + application boot on the same databases + ApplyBlock of the stored block, transcribed from node.NewNode",
 		"the libxcrypto stand-in is linked (no confidential transactions are used here)",
@@ -147,55 +204,61 @@ func run(cc *core.Ctx) {
 
 	// ---- (1) the design: TLC ---------------------------------------------------------
 	type tlcJob struct {
-		cfg    string
-		expect string // invariant that must be violated ("" = must hold)
-		export string // "" | "required" | "coded"
+		cfg      string
+		expect   string // invariant that must be violated ("" = must hold)
+		export   string // "" | "required" | "coded" | "two"
+		maxRound int
+		res      *tlc.Result
+		done     chan struct{}
 	}
-	jobs := []tlcJob{
-		{c.pickS("AsRequired.cfg", "AsRequiredBig.cfg"), "", "required"},
-		{c.pickS("AsRequiredLive.cfg", "AsRequiredLiveBig.cfg"), "", ""},
-		{"AsCoded.cfg", "VotesOnlyFullyValid", ""},
-		{"AsCodedWedge.cfg", "NoWedge", ""},
-		{"AsCodedGraph.cfg", "", "coded"},
+	jobs := []*tlcJob{
+		{cfg: c.pickS("AsRequired.cfg", "AsRequiredBig.cfg"), export: "required"},
+		{cfg: c.pickS("AsCodedGraph.cfg", "AsCodedGraphBig.cfg"), export: "coded"},
+		{cfg: c.pickS("AsRequiredLive.cfg", "AsRequiredLiveBig.cfg")},
+		{cfg: "AsCoded.cfg", expect: "VotesOnlyFullyValid"},
+		{cfg: "AsCodedWedge.cfg", expect: "NoWedge"},
+		{cfg: "TwoHash.cfg", expect: "NoWedge"},
 	}
 	if c.Thorough() {
-		jobs = append(jobs, tlcJob{"AsRequiredFree.cfg", "", ""})
+		jobs = append(jobs, &tlcJob{cfg: "Two.cfg", export: "two", maxRound: 4}, &tlcJob{cfg: "AsRequiredFree.cfg"}, &tlcJob{cfg: "TwoBig.cfg"})
+	} else {
+		jobs = append(jobs, &tlcJob{cfg: "TwoSame.cfg", export: "two", maxRound: 1}, &tlcJob{cfg: "TwoLater.cfg", export: "two", maxRound: 4})
 	}
-	results := make([]*tlc.Result, len(jobs))
-	var wg sync.WaitGroup
-	for i, tj := range jobs {
-		wg.Add(1)
-		go func(i int, tj tlcJob) {
-			defer wg.Done()
-			results[i] = c.TLC(tlc.Options{SpecDir: c.SpecDir("BlockValidity"), Module: "MC_BlockValidity", Config: tj.cfg, Workers: 1, Timeout: c.MinutesT(5, 15)})
-		}(i, tj)
+	for _, tj := range jobs {
+		tj.done = make(chan struct{})
+		go func(tj *tlcJob) {
+			defer close(tj.done)
+			tj.res = c.TLC(tlc.Options{SpecDir: c.SpecDir("BlockValidity"), Module: "MC_BlockValidity", Config: tj.cfg, Workers: 1, Timeout: c.MinutesT(5, 25)})
+		}(tj)
 	}
-	wg.Wait()
-	var lines, codedLines []string
 	leads := map[string]string{}
-	for i, tj := range jobs {
-		res := results[i]
-		if res == nil {
-			return
-		}
+	// accept waits for a TLC job and checks its verdict against what the design expects
+	accept := func(tj *tlcJob) bool {
+		<-tj.done
+		res := tj.res
 		switch {
+		case res == nil:
+			return false
 		case tj.expect == "" && (res.Violated != "" || !res.Finished):
 			c.Infra("BlockValidity %s: %s\n%s", tj.cfg, res.Describe(), res.Tail)
-			return
+			return false
 		case tj.expect != "" && res.Violated != tj.expect:
 			c.Infra("vacuous model: %s was expected to violate %s but TLC reports %s", tj.cfg, tj.expect, res.Describe())
-			return
+			return false
 		case tj.expect != "":
 			leads[tj.cfg] = res.Violated
 		}
-		switch tj.export {
-		case "required":
-			lines = res.Lines
-		case "coded":
-			codedLines = res.Lines
-		}
+		return true
 	}
-	c.SetExtra("model_leads_as_coded", leads)
+	defer func() {
+		for _, tj := range jobs {
+			<-tj.done
+		}
+	}()
+	if !accept(jobs[0]) || !accept(jobs[1]) {
+		return
+	}
+	lines, codedLines := jobs[0].res.Lines, jobs[1].res.Lines
 	o.Exhaustive = true
 	g, err := mbt.Load(lines)
 	if err != nil {
@@ -205,13 +268,20 @@ func run(cc *core.Ctx) {
 	c.SetExtra("model_states", len(g.States))
 	c.SetExtra("model_edges", len(g.Edges))
 	c.SetExtra("edges_by_action", g.ActionKinds("op"))
-	modelClasses := map[string]bool{}
-	for _, ei := range g.Out[0] {
-		var a modelAct
-		json.Unmarshal(g.Edges[ei].Act, &a)
-		modelClasses[className(a.Cls)] = true
+	gi0 := newGraphIndex(g)
+	modelClasses, nFirsts := map[string]bool{}, 0
+	var setupIDs []string
+	for id, firsts := range gi0.firsts {
+		setupIDs = append(setupIDs, id)
+		for k := range firsts {
+			modelClasses[k[:strings.Index(k, "@")]] = true
+			nFirsts++
+		}
 	}
+	sort.Strings(setupIDs)
 	c.SetExtra("model_classes", len(modelClasses))
+	c.SetExtra("model_validator_sets", setupIDs)
+	c.SetExtra("model_first_blocks", nFirsts)
 
 	base, err := ioutil.TempDir("", "vc02")
 	if err != nil {
@@ -231,35 +301,38 @@ func run(cc *core.Ctx) {
 
 	// ---- (2) the plan ------------------------------------------------------------------
 	scs := plan(cc)
+	var replayPath *pathSpec
 	if c.Replay != "" {
 		// re-run the behaviour of a recorded violation (fresh validator keys; same corruption, height, choices, storage mode)
 		var rf struct {
 			Record struct {
-				Scenario scenario `json:"scenario"`
+				Scenario scenario  `json:"scenario"`
+				PathSpec *pathSpec `json:"path_spec"`
 			} `json:"record"`
 		}
 		b, err := ioutil.ReadFile(c.Replay)
-		if err != nil || json.Unmarshal(b, &rf) != nil || len(rf.Record.Scenario.Names) == 0 {
+		if err != nil || json.Unmarshal(b, &rf) != nil || (len(rf.Record.Scenario.Names) == 0 && rf.Record.PathSpec == nil) {
 			c.Infra("cannot read the behaviour from replay file %s", c.Replay)
 			return
 		}
 		scs = []scenario{rf.Record.Scenario}
+		if rf.Record.PathSpec != nil {
+			scs, replayPath = nil, rf.Record.PathSpec
+		}
 	}
-	nJobs := c.Pick(8, 10)
-	perJob := make([][]scenario, nJobs)
-	for i, sc := range scs {
-		perJob[i%nJobs] = append(perJob[i%nJobs], sc)
-	}
+	var wg sync.WaitGroup
 	var mu sync.Mutex
 	var outs []outcome
-	for ji := range perJob {
-		if len(perJob[ji]) == 0 {
-			continue
-		}
+	// at most this many replay processes at a time; a process replays a bounded number of
+	// behaviours (the clusters' event buses and timers are not torn down one by one)
+	slots := make(chan struct{}, c.Pick(16, 12))
+	launch := func(name string, j job) {
 		wg.Add(1)
-		go func(ji int) {
+		go func() {
 			defer wg.Done()
-			arg, _ := json.Marshal(job{Edges: edgeFile, Coded: codedFile, Scenarios: perJob[ji], Dir: filepath.Join(base, fmt.Sprintf("j%d", ji))})
+			slots <- struct{}{}
+			defer func() { <-slots }()
+			arg, _ := json.Marshal(j)
 			res, at, crash := c.RunChild(string(arg), c.MinutesT(6, 25))
 			mu.Lock()
 			defer mu.Unlock()
@@ -270,16 +343,133 @@ func run(cc *core.Ctx) {
 				}
 			}
 			if crash == "TIMEOUT" {
-				c.Infra("replay job %d timed out at %s", ji, at)
+				c.Infra("replay job %s timed out at %s", name, at)
+			} else if strings.Contains(crash, "signal: killed") {
+				// SIGKILL does not come from the code under test (cmn.Kill sends SIGTERM, a fatal runtime error exits): the system did it
+				c.Infra("replay job %s was killed by the system at %s", name, at)
 			} else if crash != "" {
 				// the process died although SIGTERM is caught: an unrecoverable failure below the state machine
 				c.Violate("crash", fmt.Sprintf("the process running the correct nodes died during behaviour %s", at),
 					map[string]interface{}{"behaviour": at, "crash": crash})
 			}
-		}(ji)
+		}()
+	}
+	nJobs := c.Pick(8, 10)
+	perJob := make([][]scenario, nJobs)
+	for i, sc := range scs {
+		perJob[i%nJobs] = append(perJob[i%nJobs], sc)
+	}
+	for ji := range perJob {
+		if len(perJob[ji]) > 0 {
+			launch(fmt.Sprint(ji), job{Edges: edgeFile, Coded: codedFile, Scenarios: perJob[ji], Dir: filepath.Join(base, fmt.Sprintf("j%d", ji))})
+		}
+	}
+
+	// ---- (3) two blocks of one Byzantine proposer: the graph drives the replay -----------------------
+	var specs []pathSpec
+	twoStats := map[string]interface{}{}
+	pathsByInst := map[string]map[int]pathSpec{}
+	for _, tj := range jobs {
+		if tj.export != "two" {
+			continue
+		}
+		if !accept(tj) {
+			wg.Wait()
+			return
+		}
+		if replayPath != nil {
+			continue
+		}
+		inst := strings.TrimSuffix(tj.cfg, ".cfg")
+		g2, err := mbt.Load(tj.res.Lines)
+		if err != nil {
+			c.Infra("edge load (%s): %v", tj.cfg, err)
+			wg.Wait()
+			return
+		}
+		tj.res.Lines = nil
+		rng := rand.New(rand.NewSource(c.Seed*7919 + int64(len(inst))))
+		budget := map[string]int{"TwoSame": 80, "TwoLater": 125, "Two": 7000}[inst]
+		// every situation at the three places where the code decides about a Byzantine block, then
+		// maximal behaviours chosen by the share of the graph below them, up to the budget
+		walks, sits := targetedWalks(g2, c.Pick(1, 3), rng)
+		if len(walks) > budget && !c.Thorough() {
+			rng.Shuffle(len(walks), func(i, j int) { walks[i], walks[j] = walks[j], walks[i] })
+			walks = walks[:budget]
+		}
+		nTargeted := len(walks)
+		if budget > len(walks) {
+			more, _ := walksOf(g2, budget-len(walks), rng)
+			walks = append(walks, more...)
+		}
+		inWalks := map[int]bool{}
+		for _, wk := range walks {
+			for _, ei := range wk {
+				inWalks[ei] = true
+			}
+		}
+		twoStats[inst] = map[string]interface{}{"states": len(g2.States), "edges": len(g2.Edges), "situations": len(sits), "behaviours_through_situations": nTargeted,
+			"behaviours": len(walks), "edges_in_behaviours": len(inWalks)}
+		if os.Getenv("VERIF_C02_DEBUG") != "" {
+			for _, k := range sits {
+				fmt.Fprintln(os.Stderr, "SITUATION", inst, k)
+			}
+		}
+		pathsByInst[inst] = map[int]pathSpec{}
+		for k, wk := range walks {
+			ps := pathSpec{Inst: inst, ID: k, MaxRound: tj.maxRound, Seed: rng.Int63(), Trie: rng.Intn(2) == 0}
+			for _, ei := range wk {
+				ps.Steps = append(ps.Steps, pathStep{Act: g2.Edges[ei].Act, To: g2.Edges[ei].ToSt, Ei: ei})
+			}
+			specs = append(specs, ps)
+			pathsByInst[inst][k] = ps
+		}
+		// negative control of this binding: one falsified observation of the longest behaviour
+		best := -1
+		for k, wk := range walks {
+			if best < 0 || len(wk) > len(walks[best]) {
+				best = k
+			}
+		}
+		if best >= 0 {
+			t := pathsByInst[inst][best]
+			t.Tamper, t.ID = "vote", -1
+			specs = append(specs, t)
+		}
+	}
+	if replayPath != nil {
+		specs = []pathSpec{*replayPath}
+		pathsByInst[replayPath.Inst] = map[int]pathSpec{replayPath.ID: *replayPath}
+	}
+	c.SetExtra("two_block_instances", twoStats)
+	nPathJobs := c.Pick(8, 10)
+	if per := 250; len(specs) > nPathJobs*per {
+		nPathJobs = (len(specs) + per - 1) / per
+	}
+	perPathJob := make([][]pathSpec, nPathJobs)
+	for i, ps := range specs {
+		perPathJob[i%nPathJobs] = append(perPathJob[i%nPathJobs], ps)
+	}
+	for ji := range perPathJob {
+		if len(perPathJob[ji]) == 0 {
+			continue
+		}
+		file := filepath.Join(base, fmt.Sprintf("paths%d.json", ji))
+		b, _ := json.Marshal(perPathJob[ji])
+		if err := ioutil.WriteFile(file, b, 0644); err != nil {
+			c.Infra("write paths: %v", err)
+			break
+		}
+		launch(fmt.Sprintf("p%d", ji), job{Paths: file, Dir: filepath.Join(base, fmt.Sprintf("p%d", ji))})
 	}
 	wg.Wait()
-	judge(cc, g, outs, len(scs))
+	for _, tj := range jobs {
+		if !accept(tj) {
+			return
+		}
+	}
+	c.SetExtra("model_leads_as_coded", leads)
+	judge(cc, g, outs, len(scs), len(specs), pathsByInst)
 }
 
 // plan lists the behaviours to replay.
@@ -313,6 +503,9 @@ func plan(c *core.Ctx) []scenario {
 			}
 			scs = append(scs, scenario{Names: []string{e.Name}, H: H, Choices: rrr, Perm: rng.Intn(2), Trie: rng.Intn(2) == 0})
 			cls := className(e.Flags(H))
+			if e.Lcp != nil {
+				cls = e.Name // the validity of a commit placed on the boundary is derived: each placement is a class of its own
+			}
 			full := c.Thorough() || (H == 2 && !seenClass[cls])
 			if e.Probe {
 				full = false
@@ -341,6 +534,56 @@ func plan(c *core.Ctx) []scenario {
 				ch = allChoices[rng.Intn(8)]
 			}
 			scs = append(scs, scenario{Names: p, H: H, Choices: ch, Perm: rng.Intn(2), Trie: rng.Intn(2) == 0})
+		}
+	}
+	// validator sets in every residue class of the total power mod 3 (five and six equal
+	// validators, four of unequal power; thorough: up to eight, more vectors): the previous
+	// commit trimmed to the powers next to two thirds (floor(2T/3) and floor(2T/3)+1 where the powers allow it), alone and with a
+	// second clause violated, served to everybody / all but one / one / nobody
+	vectors := [][]int64{{1, 1, 1, 1, 1}, {1, 1, 1, 1, 1, 1}, {1, 1, 1, 2}, {1, 1, 2, 2}, {1, 2, 2, 2}}
+	if c.Thorough() {
+		vectors = append(vectors, []int64{1, 1, 1, 1, 1, 1, 1}, []int64{1, 1, 1, 1, 1, 1, 1, 1}, []int64{2, 2, 2, 2}, []int64{1, 1, 3, 3},
+			[]int64{2, 3, 3, 3}, []int64{1, 1, 2, 2, 2})
+	}
+	for _, pv := range vectors {
+		nc := len(pv) - 1
+		type serve struct {
+			ch     [3]bool
+			served int
+		}
+		serves := []serve{{rrr, nc}}
+		if nc > 3 {
+			serves = append(serves, serve{served: nc - 1}, serve{served: 1})
+			if c.Thorough() {
+				serves = append(serves, serve{served: 0}, serve{served: 2})
+			}
+		} else {
+			serves = append(serves, serve{ch: [3]bool{true, true, false}}, serve{ch: [3]bool{false, true, true}})
+			if c.Thorough() {
+				for _, ch := range allChoices {
+					if ch != rrr && ch != serves[1].ch && ch != serves[2].ch {
+						serves = append(serves, serve{ch: ch})
+					}
+				}
+			}
+		}
+		var sets [][]string
+		sets = append(sets, []string{"none"}, []string{"chain/other-id"})
+		for _, e := range catalogue {
+			if e.Lcp != nil {
+				sets = append(sets, []string{e.Name})
+				if c.Thorough() || strings.HasSuffix(e.Name, "keep-own") {
+					sets = append(sets, []string{"chain/other-id", e.Name})
+				}
+			}
+		}
+		for _, names := range sets {
+			for k, sv := range serves {
+				if k > 0 && !c.Thorough() && len(names) > 1 {
+					continue
+				}
+				scs = append(scs, scenario{Names: names, H: 2, Choices: sv.ch, Served: sv.served, Trie: rng.Intn(2) == 0, Powers: pv})
+			}
 		}
 	}
 	// the previous block decided in round 1 (FaultValidatorsEvidence names a faulty proposer)
@@ -391,8 +634,39 @@ func plan(c *core.Ctx) []scenario {
 	return scs
 }
 
+// counting counts the behaviours behind every violation key (the framework keeps one record per key).
+type counting struct {
+	*core.Ctx
+	perKey map[string]int
+}
+
+func (c *counting) Violate(key, desc string, record interface{}) {
+	c.perKey[key]++
+	c.Ctx.Violate(key, desc, record)
+}
+
+func nObs(out outcome) int {
+	if len(out.Steps) == 0 {
+		return 0
+	}
+	return len(out.Steps[0].Obs)
+}
+
 // judge turns the outcomes into the verdict.
-func judge(c *core.Ctx, g *mbt.Graph, outs []outcome, planned int) {
+func judge(cc *core.Ctx, g *mbt.Graph, outs []outcome, planned, plannedPaths int, pathsByInst map[string]map[int]pathSpec) {
+	c := &counting{Ctx: cc, perKey: map[string]int{}}
+	defer func() {
+		if len(c.perKey) > 0 {
+			cc.SetExtra("behaviours_per_violation_key", c.perKey)
+		}
+		if os.Getenv("VERIF_C02_DEBUG") != "" {
+			b, _ := json.MarshalIndent(cc.Out().Extra, "", " ")
+			fmt.Fprintln(os.Stderr, string(b))
+			for _, d := range cc.Out().Drift {
+				fmt.Fprintln(os.Stderr, "DRIFT:", d)
+			}
+		}
+	}()
 	o := c.Out()
 	// single corruptions served to everybody first: they make the clearest records
 	rank := func(x outcome) int {
@@ -420,6 +694,11 @@ func judge(c *core.Ctx, g *mbt.Graph, outs []outcome, planned int) {
 	multiPart, maxTxs, prevR1 := 0, 0, 0
 	covered := map[int]bool{}
 	asCodedOK, asCodedSteps, asCodedBad := 0, 0, 0
+	pathTamperPlanned, pathTamperRejected, pathControls, pathRefused, shapePaths := 0, 0, 0, 0, 0
+	pathsRun, pathClasses, pathHows := map[string]int{}, map[string]int{}, map[string]int{}
+	pathEdges := map[string]map[int]bool{}
+	var pathSamples []interface{}
+	var pathMillis [3]int
 	for _, out := range outs {
 		if out.Infra != "" {
 			if nInfra < 5 {
@@ -432,6 +711,89 @@ func judge(c *core.Ctx, g *mbt.Graph, outs []outcome, planned int) {
 			skipped[strings.Join(out.Scenario.Names, "+")+": "+out.Skipped]++
 			continue
 		}
+		if out.Path != nil {
+			// ---- behaviours of the two-block instances -----------------------------------------
+			if out.Scenario.Tamper != "" {
+				pathTamperPlanned++
+				if !out.Conforms && out.Divergence != "" {
+					pathTamperRejected++
+				}
+				continue
+			}
+			o.Traces++
+			o.Evaluations += out.NSteps * nObs(out)
+			pathsRun[out.Path.Inst]++
+			if pathEdges[out.Path.Inst] == nil {
+				pathEdges[out.Path.Inst] = map[int]bool{}
+			}
+			for _, ei := range out.EdgeIdx {
+				pathEdges[out.Path.Inst][ei] = true
+			}
+			pathClasses[out.Class]++
+			for k := range pathMillis {
+				pathMillis[k] += out.Path.Millis[k]
+			}
+			pathHows[out.Path.HowB+" | "+out.Path.HowB2]++
+			if !out.Valid {
+				distinct[out.Path.Inst+"/"+strings.Join(out.Path.Labels, " ")+"/"+out.Path.HowB+"/"+out.Path.HowB2] = true
+			}
+			for _, s := range out.Shape {
+				if shapePaths < 8 {
+					shapePaths++
+					c.Drift("%s: %s", out.Desc, s)
+				}
+			}
+			spec := pathsByInst[out.Path.Inst][out.Path.ID]
+			spec.HowB, spec.HowB2 = out.Path.HowB, out.Path.HowB2
+			rec := map[string]interface{}{"behaviour": out.Desc, "model_actions": out.Path.Labels, "instance": out.Path.Inst,
+				"B":                           map[string]interface{}{"construction": out.Path.HowB, "violates": out.Path.FlagsB},
+				"B2":                          map[string]interface{}{"relation": out.Path.Rel, "construction": out.Path.HowB2, "violates": out.Path.FlagsB2},
+				"validateBlock_reports_for_B": out.ValidateErr, "votes_for_invalid_block": out.VotesForBad, "persisted_at": out.Persisted,
+				"asked_to_be_killed": out.Killed, "failed": out.Failed, "restart": out.Restart, "first_divergence_from_model": out.Divergence,
+				"steps": out.Steps, "path_spec": spec}
+			if len(pathSamples) < 2 && out.Path.Rel != "" && out.Conforms && len(out.Path.Labels) > 30 {
+				pathSamples = append(pathSamples, map[string]interface{}{"behaviour": out.Desc, "model_actions": out.Path.Labels, "B": out.Path.HowB, "B2": out.Path.HowB2, "conforms": out.Conforms})
+			}
+			if out.Valid {
+				switch {
+				case len(out.Killed) > 0 || len(out.Failed) > 0:
+					c.Violate("wedge/valid-block", fmt.Sprintf("%s: fully valid blocks made correct nodes stop (%v %v)", out.Desc, out.Killed, out.Failed), rec)
+				case !out.Conforms:
+					c.Drift("%s (every block fully valid): pi_prop differs from the model without breaking the property: %s", out.Desc, out.Divergence)
+				default:
+					pathControls++
+				}
+				continue
+			}
+			bad := false
+			what := fmt.Sprintf("B = %s violating %v", out.Path.HowB, out.Path.FlagsB)
+			if out.Path.Rel != "" {
+				what += fmt.Sprintf(", B2 = %s of B: %s violating %v", out.Path.Rel, out.Path.HowB2, out.Path.FlagsB2)
+			}
+			if len(out.VotesForBad) > 0 {
+				bad = true
+				c.Violate("votes-invalid/"+out.Key, fmt.Sprintf("%s (%s): correct validators voted for a block that is not fully valid: %v; first divergence from the model: %s", out.Desc, what, out.VotesForBad, out.Divergence), rec)
+			}
+			if len(out.Persisted) > 0 {
+				bad = true
+				c.Violate("persist-invalid/"+out.Key, fmt.Sprintf("%s (%s): correct nodes %v persisted a block that is not fully valid", out.Desc, what, out.Persisted), rec)
+			}
+			if len(out.Killed) > 0 {
+				bad = true
+				c.Violate("wedge/"+out.Key, fmt.Sprintf("%s (%s): correct nodes %v committed a block they could not apply and asked to be killed; %v", out.Desc, what, out.Killed, out.Restart), rec)
+			}
+			if len(out.Failed) > 0 {
+				bad = true
+				c.Violate("abort/"+out.Key, fmt.Sprintf("%s (%s): the consensus state machine of correct nodes failed: %v; first divergence from the model: %s", out.Desc, what, out.Failed, out.Divergence), rec)
+			}
+			if !bad && !out.Conforms {
+				c.Drift("%s (%s): pi_prop differs from the model without breaking the property: %s", out.Desc, what, out.Divergence)
+			}
+			if !bad {
+				pathRefused++
+			}
+			continue
+		}
 		if out.Scenario.Tamper != "" {
 			if !out.Conforms && out.Divergence != "" {
 				tamperRejected++
@@ -439,7 +801,7 @@ func judge(c *core.Ctx, g *mbt.Graph, outs []outcome, planned int) {
 			continue
 		}
 		o.Traces++
-		o.Evaluations += out.NSteps * 3
+		o.Evaluations += out.NSteps * nObs(out)
 		for _, ei := range out.EdgeIdx {
 			covered[ei] = true
 		}
@@ -551,6 +913,17 @@ func judge(c *core.Ctx, g *mbt.Graph, outs []outcome, planned int) {
 	c.SetExtra("max_txs_in_block", maxTxs)
 	c.SetExtra("behaviours_after_a_round_1_commit", prevR1)
 	c.SetExtra("as_coded_conformance", map[string]int{"behaviours_leaving_AsRequired_that_follow_AsCoded_step_by_step": asCodedOK, "steps_compared": asCodedSteps, "follow_neither": asCodedBad})
+	edgesFollowed := map[string]int{}
+	for inst, m := range pathEdges {
+		edgesFollowed[inst] = len(m)
+	}
+	c.SetExtra("two_block_behaviours", map[string]interface{}{"planned": plannedPaths, "run_by_instance": pathsRun, "by_class": pathClasses,
+		"constructions_B_B2": pathHows, "model_edges_followed_on_real_nodes": edgesFollowed, "all_blocks_valid_voted_and_committed": pathControls,
+		"invalid_blocks_refused": pathRefused, "negative_controls_rejected": pathTamperRejected, "samples": pathSamples,
+		"cpu_ms_total_cluster_built_blocks_built_done": pathMillis})
+	if c.Replay == "" && pathTamperRejected < pathTamperPlanned {
+		c.Infra("vacuous binding: only %d of %d falsified observations of two-block behaviours were rejected by the replay", pathTamperRejected, pathTamperPlanned)
+	}
 	if c.Replay == "" && tamperRejected < 2 {
 		c.Infra("vacuous binding: only %d of 2 falsified observations were rejected by the replay", tamperRejected)
 	}
